@@ -50,3 +50,44 @@ func VH_C16_EngineLock() {
 	verifrt.Assert(!verifrt.LockHeld(&te.lock), "lock released on every return path")
 	verifrt.Reach("end")
 }
+
+// VH_C16_OpenLock: the hand-opening operation itself (tableGameOpen, including its retry
+// path after a refused position computation) is one critical section too: it replaces
+// the table by a clone, so a membership operation that could run between the clone and
+// the commit would be lost.
+func VH_C16_OpenLock() {
+	n := verifrt.Cfg("n")
+	M := verifrt.Cfg("M")
+	w, _ := vhStandbyWorld(n, M)
+	te := w.te
+	w.bk.faults = true
+	verifrt.Assert(!verifrt.LockHeld(&te.lock), "lock free before the operation")
+	verifrt.Watch(&te.lock, te)
+	te.tableGameOpen()
+	touched := verifrt.Unwatch()
+	verifrt.Assert(touched > 0, "the operation touches shared state (watch is not vacuous)")
+	verifrt.Assert(!verifrt.LockHeld(&te.lock), "lock released on every return path")
+	verifrt.Reach("end")
+}
+
+// VH_C16_DeliverySync: settlement and the reset between hands run on the state-updater
+// goroutine without the engine lock; what orders them after a player action that is still
+// in flight (holding the lock, statistics not yet bumped) is that the delivery of the
+// hand-closing state takes the engine lock once before it settles.  This is the edge the
+// serial-order argument of C16 / C14 relies on, checked here as a ghost condition.
+func VH_C16_DeliverySync() {
+	w, m, _ := vhSettleWorld()
+	te := w.te
+	gs := te.table.State.GameState
+	te.table.State.Status = TableStateStatus_TableGamePlaying
+	gs.Status.CurrentEvent = "GameClosed"
+	// the closing state may or may not designate a current player / allowed actions
+	gs.Status.CurrentPlayer = verifrt.IntRange("closing.cur", -1, m-1)
+	verifrt.ResetLockAcquired(&te.lock)
+	verifrt.Assert(!verifrt.LockHeld(&te.lock), "lock free before the delivery")
+	te.updateGameState(gs)
+	verifrt.Assert(te.table.State.Status != TableStateStatus_TableGamePlaying, "the closing state settles the hand")
+	verifrt.Assert(verifrt.LockAcquired(&te.lock), "a state delivery that ends the hand takes the engine lock before it settles (orders settlement after an action still in flight)")
+	verifrt.Assert(!verifrt.LockHeld(&te.lock), "lock released on every return path")
+	verifrt.Reach("end")
+}
